@@ -932,9 +932,6 @@ func runScenario(p *plan, release func()) line {
 		s.observedFeatures(fake.Journal(), events)
 		if res == "HANG:close" {
 			p.feat["close-hang"] = true
-			if lateCall(events) {
-				p.feat["late-call"] = true
-			}
 		}
 		return line{"e2e", p.cfg() + " " + strings.Join(events, " "), res, kvfmt.Set(p.feat)}
 	}
@@ -984,28 +981,6 @@ func runScenario(p *plan, release func()) line {
 	return finish()
 }
 
-// lateCall tells whether a WriteMessages call that started before X returned
-// after X with a result other than closed (the signature of batchMessages
-// running after Close).
-func lateCall(events []string) bool {
-	x := -1
-	started := map[string]bool{}
-	for i, e := range events {
-		switch {
-		case e == "X":
-			x = i
-		case e[0] == 'C' && x < 0:
-			started[e[1:strings.Index(e, ":")]] = true
-		case e[0] == 'R' && x >= 0:
-			k := strings.Index(e, ":")
-			if started[e[1:k]] && e[k+1:] != "closed" {
-				return true
-			}
-		}
-	}
-	return false
-}
-
 // observedFeatures derives the fault-kind tags from what the fake journalled
 // and the completions that were delivered.
 func (s *scRun) observedFeatures(journal []fakert.Attempt, events []string) {
@@ -1053,7 +1028,10 @@ func (s *scRun) observedFeatures(journal []fakert.Attempt, events []string) {
 }
 
 // ---------------------------------------------------------------------------
-// f3: Close racing a WriteMessages that is already past enter()
+// f3: Close racing a WriteMessages that is already past enter() (regression
+// scenario of the fixed Close hang). Go result <close>:<a>, close = returned |
+// hang (2 s watchdog), a = result of the racing call (nil | closed | other.<text>
+// | hang); tag produced = the record reached the fake.
 
 func runF3() line {
 	hist := fakert.NewHistory()
@@ -1083,14 +1061,15 @@ func runF3() line {
 	feat := map[string]bool{"f3": true}
 	v := make([]byte, 16)
 	binary.BigEndian.PutUint64(v, 1)
-	aDone := make(chan error, 1)
+	amsgs := []kafka.Message{{Value: v}}
+	aDone := make(chan string, 1)
 	go func() {
 		defer func() {
 			if r := recover(); r != nil {
-				aDone <- fmt.Errorf("panic: %v", r)
+				aDone <- "other.panic:" + sanitize(fmt.Sprint(r))
 			}
 		}()
-		aDone <- w.WriteMessages(context.Background(), kafka.Message{Value: v})
+		aDone <- classifyResult(w.WriteMessages(context.Background(), amsgs...), amsgs)
 	}()
 	select {
 	case <-entered:
@@ -1119,15 +1098,10 @@ func runF3() line {
 	}
 	time.Sleep(5 * time.Millisecond) // let Close reach group.Wait
 	close(releaseB)
+	ares := "hang"
 	select {
-	case err := <-aDone:
-		if err == nil {
-			feat["a-nil"] = true
-		} else {
-			feat["a-err"] = true
-		}
+	case ares = <-aDone:
 	case <-time.After(2 * time.Second):
-		feat["a-hang"] = true
 	}
 	res := "returned"
 	select {
@@ -1135,6 +1109,7 @@ func runF3() line {
 	case <-time.After(2 * time.Second):
 		res = "hang"
 	}
+	res += ":" + ares
 	if _, logs := fake.Logs(); len(logs) == 1 && len(logs[0]) == 1 {
 		feat["produced"] = true
 	}
